@@ -121,6 +121,13 @@ macro_rules! vassert {
 }
 pub(crate) use vassert;
 
+/// Placeholder body of an overlay function that verif.py had to drop because it no longer compiles
+/// against the tree under check (see "overlay repair" in verif.py): reaching it makes the harness
+/// undecided, never a violation.
+pub fn dropped() -> ! {
+    panic!("overlay_function_dropped_because_it_no_longer_compiles")
+}
+
 /// Vacuity guard: the end of every harness must be reachable.
 macro_rules! vcover {
     ($name: literal) => {
